@@ -404,6 +404,7 @@ Theorem holdsb_sound t : holdsb t = true -> t_quiet t = true ->
   (forall l, In l (t_in t) -> i_wr l = i_arr l /\ i_bad l = 0%N).
 Proof.
   unfold holdsb. intros H Hq. rewrite Hq in H. apply andb_true_iff in H as [H _]. apply andb_true_iff in H as [H _].
+  apply andb_true_iff in H as [H _]. apply andb_true_iff in H as [H _].
   apply andb_true_iff in H as [Ho Hi].
   rewrite forallb_forall in Ho, Hi. split.
   - intros l Hl. specialize (Ho l Hl). unfold olane_ok, same in Ho.
